@@ -165,6 +165,34 @@ impl<const SIDE: u8> Drop for El<SIDE> {
         let _u = enter_user();
         record_drop(SIDE, self.id, self.val);
         cb_tick(SIDE | 0x40); // destructor panic points are a separate family (see cb_reset)
+        drop_bomb_tick(SIDE);
+    }
+}
+thread_local! {
+    /// per-side drop bombs: the n-th destructor run from now panics once (0 = disarmed); used to compare with std what a
+    /// retain leaves behind when the destructor of a removed element panics
+    static DROP_BOMB: [Cell<u32>; 2] = const { [const { Cell::new(0) }; 2] };
+}
+pub fn arm_drop_bombs(n: u32) {
+    DROP_BOMB.with(|b| b.iter().for_each(|c| c.set(n)));
+}
+fn drop_bomb_tick(side: u8) {
+    let fire = DROP_BOMB.with(|b| {
+        let c = &b[(side & 1) as usize];
+        match c.get() {
+            0 => false,
+            1 => {
+                c.set(0);
+                true
+            }
+            n => {
+                c.set(n - 1);
+                false
+            }
+        }
+    });
+    if fire && !std::thread::panicking() {
+        panic!("drop bomb");
     }
 }
 thread_local! {
